@@ -247,6 +247,24 @@ class Rewrites(Suite):
                         context=None, base={'name': 'm', 'data': {'tasks': ['@M.Collect', '@M.Top'], 'uses': ['eu/part.json', us]}})
         out.append(dict(orig=two_files('us/part_us.json'), rewr=two_files('us/part.json'), moves=['rename-files'], prefix=''))
         out.append(dict(orig=two_files('us/part.yaml'), rewr=two_files('us/other.json'), moves=['rename-files'], prefix=''))
+        # two mounted configs declare the same classes, one of them excludes a class: the order of the `uses` entries moves nothing
+        xc = [dict(K(0, 'PartA', params=[P('sel')]), name='part_a'), dict(K(1, 'PartB', params=[P('sel')]), name='part_b'),
+              dict(K(2, 'Collector', meta_inputs=[{'name': '~part_.*'}], param_inputs=[dict(ref={'name': 'part_b'}, default=[0])][:0]), name='collector')]
+        xf = {'eu.json': {'tasks': ['@M.*'], 'excluded_tasks': ['@M.PartB'], 'sel': 1}, 'us.json': {'tasks': ['@M.*'], 'sel': 2}}
+        for first, second in ((['eu.json as eu', 'us.json as us'], ['us.json as us', 'eu.json as eu']),):
+            out.append(dict(orig=dict(classes=xc, files=dict(xf), context=None, base={'name': 'm', 'data': {'uses': first}}),
+                            rewr=dict(classes=xc, files=dict(xf), context=None, base={'name': 'm', 'data': {'uses': second}}),
+                            moves=['permute'], prefix=''))
+        # a pattern input beside a sub-pipeline that holds a matching task: built directly and mounted, the pattern collects
+        # the tasks of the declaring task's own namespace only
+        fc = [dict(K(0, 'FeatA', params=[P('sel')]), name='feat_a'), dict(K(1, 'FeatB', params=[P('sel')]), name='feat_b'),
+              dict(K(2, 'Collect', meta_inputs=[{'name': '~feat_.*'}]), name='collect'), dict(K(3, 'Top', meta_inputs=[{'cls': 2}]), name='top')]
+        finner = {'tasks': ['@M.FeatA', '@M.Collect', '@M.Top'], 'sel': 1, 'uses': 'side.json as side'}
+        fside = {'side.json': {'tasks': ['@M.FeatB'], 'sel': 2}}
+        out.append(dict(orig=dict(classes=fc, files=dict(fside), context=None, base={'name': 'm', 'data': finner}),
+                        rewr=dict(classes=fc, files=dict(fside, **{'wrapped/base.json': finner}), context=None,
+                                  base={'name': 'wrapper', 'data': {'uses': 'wrapped/base.json as mnt'}}),
+                        moves=['mount:mnt'], prefix='mnt::'))
         # inputs collected by a pattern: the order in which the tasks are declared must not matter
         parts = [dict(K(i, f'Part{i}', params=[P('sel')]), name=f'part_{n}') for i, n in enumerate(['b', 'a', 'c'])]
         coll = dict(K(3, 'Collect', meta_inputs=[{'name': '~part_.*'}]), name='collect')
